@@ -230,6 +230,7 @@ struct World {
     bool has_ctx = false;
     unsigned ctx_flags = 0;
     bool ctx_finalized = false;
+    uint64_t ctx_finalized_gseq = 0;
     bool ctx_looping = false;
     uint64_t ctx_tick_ns = 0;
     int ctx_registrations = 0;
@@ -302,6 +303,7 @@ int slot_of(const m_mod_t *m);
 Frame *cur_api_frame();
 bool frame_on_stack(const char *name, int slot);
 bool frame_on_stack_any(const char *name);
+bool leaving(int slot);
 bool cb_on_stack(int cb, int slot);
 bool ctx_is_looping_probe(bool *known);
 bool flush_phase_now();
